@@ -97,6 +97,18 @@ BeginWith(c, newinp) ==
     /\ called' = {} /\ done' = {} /\ failed' = {} /\ stored' = {}
     /\ UNCHANGED d
 
+(* Pipeline.replace between runs: function i gets another implementation (same outputs).  What the cache holds for i and   *)
+(* for every function downstream of i is stale from now on: no later run may be answered from it (entries of functions    *)
+(* that do not depend on i may survive; pipefunc clears everything, which is within this).                                *)
+Affected(i) == {j \in FIdx(d) : j = i \/ i \in SClosure(d, StaticDeps(d, j))}
+Replace(i, fn) ==
+    /\ phase = "idle" /\ i \in FIdx(d) /\ fn.outputs = d.funcs[i].outputs
+    /\ d' = [d EXCEPT !.funcs[i] = fn]
+    /\ cfg' = [F |-> cfg.F, cleanup |-> cfg.cleanup, fixed |-> cfg.fixed, cache |-> Cached,
+               memo |-> {m \in Memo \cup (IF Cached THEN {<<e[1], KwOfElem(e)>> : e \in done} ELSE {}) : m[1] \notin Affected(i)}]
+    /\ called' = {} /\ done' = {}
+    /\ UNCHANGED <<inp, phase, den, failed, stored>>
+
 (* InputsComplete + ExactlyOnce + NoRecompute + NoLaterGeneration are the enabling condition *)
 Call(i, t, kwargs) ==
     /\ phase = "running"
